@@ -6,6 +6,7 @@ import PM.Marks
 import PM.SchemaCompile
 import Proofs.Marks
 import Proofs.SchemaCompile
+import Proofs.SchemaBuild
 namespace PM.C14
 open PM
 
@@ -471,5 +472,33 @@ example : refusal (compileSchema exSpec exDfas) = none := by decide
 /-- a mark *named* like a group shadows the group: `hl` now excludes the mark `fmt` and `link` only -/
 example : ((compileSchema { exSpec with marks := exSpec.marks ++ [{ name := "fmt" }] } exDfas).toOption.map
     (fun S => (S.markType 5).excluded)) = some [6, 0] := by decide
+
+/-! ### the same for the constructor as a whole (`PM/SchemaBuild.lean: buildSchema`, which compiles the content
+    automata itself and hands them to `compileSchema`; tied to `Schema(spec)` by full dump / kind of refusal) -/
+
+section Build
+open PM.SchemaBuild
+
+/-- `excluded_spec` for the constructor as a whole: mark type `a` excludes `b` iff `excludes` is absent and `a = b`, or some word
+    of the expression names `b` -/
+theorem buildSchema_excluded {spec : Spec} {S : Schema} (h : buildSchema spec = .ok S)
+    (hnd : (spec.marks.map (·.name)).Nodup) (a b : Nat) (ha : a < spec.marks.length) (hb : b < spec.marks.length) :
+    S.excludes a b = true ↔
+      match spec.marks[a].excludes with
+      | none => a = b
+      | some e => e ≠ "" ∧ ∃ w ∈ pySplit e, Names spec.marks w spec.marks[b] :=
+  excluded_spec (PM.SchemaBuild.buildSchema_ok h).compiled hnd a b ha hb
+
+/-- `markSet_spec` for the constructor as a whole: node type `n` allows mark type `m` iff `marks` is absent and `n` has inline content, or
+    `"_"`, or some word of the expression names `m` -/
+theorem buildSchema_markSet {spec : Spec} {S : Schema} (h : buildSchema spec = .ok S)
+    (hnd : (spec.marks.map (·.name)).Nodup) (n m : Nat) (hn : n < spec.nodes.length) (hm : m < spec.marks.length) :
+    (S.nodeType n).allowsMarkType m = true ↔
+      match spec.nodes[n].marks with
+      | none => (S.nodeType n).inlineContent = true
+      | some e => e = "_" ∨ (e ≠ "" ∧ ∃ w ∈ pySplit e, Names spec.marks w spec.marks[m]) :=
+  markSet_spec (PM.SchemaBuild.buildSchema_ok h).compiled hnd n m hn hm
+
+end Build
 
 end PM.C14
